@@ -148,15 +148,15 @@ template <class P> struct H {
             V3 qp = q + c(h) * qdB, qm = q - c(h) * qdB;
             V3 fp = Rot::calcNForBodyXYZInBodyFrame(qp) * (w + c(h) * wd), fm = Rot::calcNForBodyXYZInBodyFrame(qm) * (w - c(h) * wd);
             V3 fd = (fp - fm) / c(2 * h);
-            vh::P("qdotdot_is_derivative_body", fn("wdBtoQdd") + k + ".fd", (double)(fd - qddB).norm() / (std::max(1.0, (double)qddB.norm())), fdTol * 100);
+            vh::P("qdotdot_is_derivative_body", fn("wdBtoQdd") + k + ".fd", (double)(fd - qddB).norm() / (std::max(1.0, (double)qddB.norm())), fdTol * 10);
             V3 qp3 = q + c(h) * qd321, qm3 = q - c(h) * qd321;
             V3 gp = Rot::convertAngVelToBodyFixed321Dot(qp3, w + c(h) * wd), gm = Rot::convertAngVelToBodyFixed321Dot(qm3, w - c(h) * wd);
-            vh::P("qdotdot_is_derivative_321", fn("wd321") + k + ".fd", (double)((gp - gm) / c(2 * h) - qdd321).norm() / (std::max(1.0, (double)qdd321.norm())), fdTol * 100); }
+            vh::P("qdotdot_is_derivative_321", fn("wd321") + k + ".fd", (double)((gp - gm) / c(2 * h) - qdd321).norm() / (std::max(1.0, (double)qdd321.norm())), fdTol * 10); }
         {   // qdotdot (parent): w = NInv_P qd, b = wd; d/dt [N_P(q(t)) w(t)]
             V3 wP = a3 * 0 + Rot::multiplyByBodyXYZ_NInv_P(cxy, sxy, qd);
             V3 qp = q + c(h) * qd, qm = q - c(h) * qd;
             V3 fp = Rot::calcNForBodyXYZInParentFrame(qp) * (wP + c(h) * wd), fm = Rot::calcNForBodyXYZInParentFrame(qm) * (wP - c(h) * wd);
-            vh::P("qdotdot_is_derivative_parent", fn("aPtoQdd") + k + ".fd", (double)((fp - fm) / c(2 * h) - qddP).norm() / (std::max(1.0, (double)qddP.norm())), fdTol * 100); }
+            vh::P("qdotdot_is_derivative_parent", fn("aPtoQdd") + k + ".fd", (double)((fp - fm) / c(2 * h) - qddP).norm() / (std::max(1.0, (double)qddP.norm())), fdTol * 10); }
     }
 
     static void quatCase(vh::Rng& g, const std::string& cls) {
